@@ -52,16 +52,16 @@ def padRight (w : Nat) (s : List Char) : List Char := s ++ List.replicate (w - s
 
 def maxNameLen (names : List (List Char)) : Nat := names.foldl (fun acc n => max acc n.length) 0
 
-def defineLine (d : List Char) : List Char := "#define ".toList ++ d
-def includeLine (n : List Char) : List Char := "#include \"".toList ++ n ++ ".itp\"".toList
+def defineLine (d : List Char) : List Char := ['#', 'd', 'e', 'f', 'i', 'n', 'e', ' '] ++ d
+def includeLine (n : List Char) : List Char := ['#', 'i', 'n', 'c', 'l', 'u', 'd', 'e', ' ', '\"'] ++ n ++ ['.', 'i', 't', 'p', '\"']
 def moleculeLine (w : Nat) (g : List Char × Nat) : List Char :=
-  padRight w g.1 ++ "    ".toList ++ C16.natDigits g.2
+  padRight w g.1 ++ [' ', ' ', ' ', ' '] ++ C16.natDigits g.2
 
 /-- `template.format(includes=..., molecules=..., defines=...)` -/
 def topRaw (defines : List (List Char)) (names : List (List Char)) : List Char :=
-  joinNl (defines.map defineLine) ++ "\n#include \"martini.itp\"\n".toList
+  joinNl (defines.map defineLine) ++ ['\n', '#', 'i', 'n', 'c', 'l', 'u', 'd', 'e', ' ', '\"', 'm', 'a', 'r', 't', 'i', 'n', 'i', '.', 'i', 't', 'p', '\"', '\n']
     ++ joinNl ((includes names).map includeLine)
-    ++ "\n\n[ system ]\nTitle of the system\n\n[ molecules ]\n".toList
+    ++ ['\n', '\n', '[', ' ', 's', 'y', 's', 't', 'e', 'm', ' ', ']', '\n', 'T', 'i', 't', 'l', 'e', ' ', 'o', 'f', ' ', 't', 'h', 'e', ' ', 's', 'y', 's', 't', 'e', 'm', '\n', '\n', '[', ' ', 'm', 'o', 'l', 'e', 'c', 'u', 'l', 'e', 's', ' ', ']', '\n']
     ++ joinNl ((groups names).map (moleculeLine (maxNameLen names))) ++ ['\n']
 
 /-- the text of the `.top` file -/
@@ -73,7 +73,7 @@ def topText (defines : List (List Char)) (names : List (List Char)) : List Char 
 def charLimit : Nat := 4000
 
 /-- `line[:4000] + " ..."` for over-long header lines -/
-def clipLine (l : List Char) : List Char := if l.length > charLimit then l.take charLimit ++ " ...".toList else l
+def clipLine (l : List Char) : List Char := if l.length > charLimit then l.take charLimit ++ [' ', '.', '.', '.'] else l
 
 inductive TopErr where
   | valueerror | indexerror | typeerror | keyerror
@@ -85,7 +85,7 @@ def headerStep (h : List (List Char)) (cites : List (List Char)) : Except TopErr
   match h.reverse with
   | [] => .error .indexerror
   | last :: revInit =>
-    .ok (revInit.reverse ++ [last ++ ['\n']] ++ ["Please cite the following papers:".toList] ++ cites)
+    .ok (revInit.reverse ++ [last ++ ['\n']] ++ [['P', 'l', 'e', 'a', 's', 'e', ' ', 'c', 'i', 't', 'e', ' ', 't', 'h', 'e', ' ', 'f', 'o', 'l', 'l', 'o', 'w', 'i', 'n', 'g', ' ', 'p', 'a', 'p', 'e', 'r', 's', ':']] ++ cites)
 
 /-- the headers of the successive ITP files: `ws` = the molecules written, in order -/
 def itpHeaders (cites : List (List (List Char))) :
@@ -104,7 +104,7 @@ def itpHeaders (cites : List (List (List Char))) :
 structure TopIn where
   sys : List TMol
   /-- `molecule.meta['moltype']` -/
-  names : List String
+  names : List (List Char)
   /-- formatted citations of each molecule (opaque strings, in the iteration order of the set) -/
   cites : List (List (List Char))
   /-- `system.meta.get('header', [])` -/
@@ -119,7 +119,7 @@ structure TopOutText where
   /-- files written for `atomtypes` / `nonbond_params` (contents: not modelled) -/
   paramFiles : List String
   /-- (file stem, index of the molecule written, header, text) -/
-  itps : List (String × Nat × List (List Char) × String)
+  itps : List (List Char × Nat × List (List Char) × String)
   top : List Char
 
 def paramFile (inp : TopIn) (key : String) : Except TopErr (List String) :=
@@ -132,14 +132,14 @@ def paramFile (inp : TopIn) (key : String) : Except TopErr (List String) :=
       | some p => .ok [p]
   else .ok []
 
-def writeItps (inp : TopIn) : List (String × Nat) → List (List (List Char)) →
-    Except TopErr (List (String × Nat × List (List Char) × String))
+def writeItps (inp : TopIn) : List (List Char × Nat) → List (List (List Char)) →
+    Except TopErr (List (List Char × Nat × List (List Char) × String))
   | [], _ => .ok []
   | (n, i) :: ws, h :: hs =>
     match inp.sys[i]? with
     | none => .error .indexerror
     | some t =>
-      match itpText (h.map String.ofList) n t with
+      match itpText (h.map String.ofList) (String.ofList n) t with
       | .error e => .error (.itp e)
       | .ok text =>
         match writeItps inp ws hs with
@@ -162,7 +162,7 @@ def writeTopology (inp : TopIn) : Except TopErr TopOutText :=
   match writeItps inp ws hs with
   | .error e => .error e
   | .ok itps =>
-    .ok { paramFiles := f1 ++ f2, itps := itps, top := topText inp.defines (inp.names.map String.toList) }
+    .ok { paramFiles := f1 ++ f2, itps := itps, top := topText inp.defines inp.names }
 
 /-! ### an independent `.top` reader
 
@@ -216,8 +216,8 @@ def topStep (st : TopPState) (toks : List (List Char)) : Except TopPErr TopPStat
   match toks with
   | [] => .ok st
   | t :: rest =>
-    if t = "#define".toList then .ok { st with out := { st.out with defines := st.out.defines ++ [rest] } }
-    else if t = "#include".toList then
+    if t = ['#', 'd', 'e', 'f', 'i', 'n', 'e'] then .ok { st with out := { st.out with defines := st.out.defines ++ [rest] } }
+    else if t = ['#', 'i', 'n', 'c', 'l', 'u', 'd', 'e'] then
       match rest with
       | [q] =>
         match unquote q with
@@ -232,14 +232,14 @@ def topStep (st : TopPState) (toks : List (List Char)) : Except TopPErr TopPStat
       match st.sect with
       | none => .error .noSection
       | some s =>
-        if s = "molecules".toList then
+        if s = ['m', 'o', 'l', 'e', 'c', 'u', 'l', 'e', 's'] then
           match toks with
           | [name, cnt] =>
             match parseNat cnt with
             | some c => .ok { st with out := { st.out with molecules := st.out.molecules ++ [(name, c)] } }
             | none => .error .badMolecule
           | _ => .error .badMolecule
-        else if s = "system".toList then
+        else if s = ['s', 'y', 's', 't', 'e', 'm'] then
           .ok { st with out := { st.out with title := st.out.title ++ [toks] } }
         else .error .badSection
 
